@@ -43,7 +43,7 @@ type Def struct {
 type Case struct {
 	Defs        []Def    `json:"defs"` // one per pool name
 	Params      []string `json:"params"`
-	Caller      string   `json:"caller"`       // top | function
+	Caller      string   `json:"caller"`        // top | function
 	AliasViaAPI bool     `json:"alias_via_api"` // aliases created with lang.GlobalAliases.Add instead of the `alias` builtin
 }
 
